@@ -155,6 +155,11 @@ class PGen:
                 "index", "square"]
         if not pos:
             opts += ["log", "logsoftmax", "rlse", "conj", "osum-maybe"]
+            # composites that the optimiser rewrites (log o softmax -> log-softmax; reduce-sum o outer-product
+            # -> einsum): generated on purpose, with every axis combination
+            opts += ["log-softmax-pair", "log-softmax-pair"]
+        if rank <= 2:
+            opts += ["rsum-oprod-pair", "rsum-oprod-pair"]
         opts += ["kron", "oprod"]
         if not pos:
             opts += ["osum"]
@@ -171,11 +176,25 @@ class PGen:
             # complex graphs: only operators defined on complex tensors, and every leaf complex
             # (real and complex sub-graphs are not mixed in one fold set: known finding F19)
             opts = [o for o in opts if o in ("exp", "square", "conj", "sum", "had", "kron", "oprod", "osum",
-                                             "rsum", "rprod", "index", "mix", "pprod", "pdiff")]
+                                             "rsum", "rprod", "index", "mix", "pprod", "pdiff", "rsum-oprod-pair")]
         op = d(st.sampled_from(opts))
         g = lambda s, p=False, c=cx: self.gen(s, depth - 1, pos=p, cx=c)  # noqa: E731
         ax = d(st.integers(-rank, rank - 1))
         axn = ax % rank
+        if op == "log-softmax-pair":
+            return {"op": "log", "in": [{"op": "softmax", "args": {"axis": ax}, "in": [g(shape, False, False)]}]}
+        if op == "rsum-oprod-pair":
+            # child of the reduction has rank+1 dims; the outer product is taken along a drawn axis of it
+            r2 = rank + 1
+            a_red = d(st.integers(-r2, r2 - 1))
+            child = list(shape)
+            child.insert(a_red % r2, d(st.sampled_from([1, 2, 4, 6])))
+            a_out = d(st.integers(-r2, r2 - 1))
+            fa, fb = d(st.sampled_from(_factor_pairs(child[a_out % r2])))
+            s1, s2 = list(child), list(child)
+            s1[a_out % r2], s2[a_out % r2] = fa, fb
+            return {"op": "rsum", "args": {"axis": a_red},
+                    "in": [{"op": "oprod", "args": {"axis": a_out}, "in": [g(s1, pos), g(s2, pos)]}]}
         if op in ("exp",):
             return {"op": op, "in": [g(shape, False, False if pos else cx)]}
         if op == "log":
